@@ -19,6 +19,18 @@ NPROC = int(os.environ.get('VERIF_NPROC', '16'))
 ENV = dict(os.environ, PYTHONPATH=REPO, PYTHONHASHSEED='0', GEARPY_REPO=REPO, MPLBACKEND='Agg')
 
 
+def size(quick, thorough, tier):
+    """number of cases of a correspondence: the quick size is multiplied by VERIF_BOOST (set by check.py when a source file the
+    property is anchored in differs from the pinned fingerprint), never above the thorough size"""
+    if tier != 'quick':
+        return thorough
+    try:
+        b = int(os.environ.get('VERIF_BOOST', '1'))
+    except ValueError:
+        b = 1
+    return min(thorough, quick * max(1, b))
+
+
 def seed():
     try:
         return int(os.environ.get('VERIF_SEED', '0'))
